@@ -55,24 +55,6 @@ pub proof fn lemma_cell_unique(n: int, a: int, b: int, c: int, d: int)
 }
 
 
-//@ item src/graph_impl/mod.rs | - | fn node_index
-/// Short version of `NodeIndex::new`
-pub fn node_index<Ix: IndexType>(index: usize) -> (r: NodeIndex<Ix>)
-    /*+*/ensures r == NodeIndex(Ix::spec_new(index)), index <= Ix::spec_max() ==> r.0.ix() == index/*-*/
-{
-    NodeIndex::new(index)
-}
-//@ end
-
-//@ item src/graph_impl/mod.rs | - | fn edge_index
-/// Short version of `EdgeIndex::new`
-pub fn edge_index<Ix: IndexType>(index: usize) -> (r: EdgeIndex<Ix>)
-    /*+*/ensures r == EdgeIndex(Ix::spec_new(index)), index <= Ix::spec_max() ==> r.0.ix() == index/*-*/
-{
-    EdgeIndex::new(index)
-}
-//@ end
-
 pub open spec fn edge_joins<E>(e: (int, int, E), a: int, b: int, directed: bool) -> bool {
     (e.0 == a && e.1 == b) || (!directed && e.0 == b && e.1 == a)
 }
